@@ -103,7 +103,9 @@ func genVrState(r *rand.Rand) vrState {
 // instructions with small symbols and selectors the generated states can match
 func genVrInstr(r *rand.Rand) Instr {
 	i := genInstr(r)
-	short := func() []byte { return []byte(pick(r, []string{"foo", "bar", "baz", "_", ".", ">", "<", "^", "1", "2", "a", "*", "_catch"})) }
+	short := func() []byte {
+		return []byte(pick(r, []string{"foo", "bar", "baz", "_", ".", ">", "<", "^", "1", "2", "a", "*", "_catch"}))
+	}
 	switch i.Op {
 	case vm.INCMP:
 		i.S1, i.S2 = short(), []byte(pick(r, []string{"1", "2", "a", "*", "x1"}))
